@@ -42,6 +42,8 @@ TRUSTED_BASE = [
 
 
 def _worker(conn, modname, idx, tier, seed, replay_dir, mode, prefix=None, first=True):
+    from .solve import _die_with_parent
+    _die_with_parent()
     try:
         mod = importlib.import_module(modname)
         insts = mod.instances(tier)
@@ -187,7 +189,22 @@ def run_pool(modname, jobs, tier, seed, replay_dir, njobs, verbose):
     running = {}
     reports = []
     probing = {}
+    t_start = time.time()
+    hard = float(os.environ.get('VERIF_DEADLINE', '0') or 0) or (3300.0 if tier == 'thorough' else 840.0)
     while pending or running:
+        if time.time() - t_start > hard:
+            # global wall-clock limit of one check run: what is left is undecided, never a violation
+            for pid, (p, pc, inst, deadline, started) in list(running.items()):
+                p.kill()
+                p.join(2)
+                reports.append((inst, {'key': inst.key, 'prop': inst.prop, 'func': inst.func, 'name': inst.name,
+                                       'undecided': [{'obligation': '*', 'reason': 'check wall-clock limit'}],
+                                       'obligations': [], 'violations': [], 'error': None, 'timeout': True}))
+            for idx, inst, mode, prefix, first in pending:
+                reports.append((inst, {'key': inst.key, 'prop': inst.prop, 'func': inst.func, 'name': inst.name,
+                                       'undecided': [{'obligation': '*', 'reason': 'check wall-clock limit (not started)'}],
+                                       'obligations': [], 'violations': [], 'error': None, 'timeout': True}))
+            break
         while pending and len(running) < njobs:
             idx, inst, mode, prefix, first = pending.pop(0)
             pc, cc = ctx.Pipe(duplex=False)
